@@ -31,6 +31,10 @@ FIXED = [
  ("C07", "fix: errors in elsif and when clauses are located at the clause", "syntax/evaluation errors in {% elsif %} / {% when %} were reported at the line of the {% if %} / {% case %} tag"),
  ("C18", "fix: Drops nested in an array are resolved before the array reaches a filter", "{{ drops | join }} printed Go structs ({x} {y}); sort_natural/uniq/sort: key saw wrapper structs instead of the ToLiquid values"),
  ("C18", "fix: uniq compares elements by Liquid equality", "{{ a | uniq }} kept uint8(1) and uint(1) (or 1 and 1.0) as distinct elements; panicked on a struct wrapping an uncomparable value"),
+ ("C04", "fix: cycle does not write a variable shared by all renders", "two goroutines rendering one parsed template containing {% cycle %} raced on the captured err variable (tags/iteration_tags.go)"),
+ ("C19", "fix: an empty string passed to Delims selects the corresponding default", "Delims(\"\", ...) panicked / mis-scanned instead of using the default delimiter"),
+ ("C19", "fix: whitespace-control hyphens are found next to custom delimiters of any length", "with delimiters whose length is not 2, hyphens were ignored or ordinary characters taken as hyphens"),
+ ("C19", "fix: a right tag delimiter containing regexp metacharacters", "a right tag delimiter such as *) made the scanner panic in regexp.MustCompile"),
  ("C01", "fix: property access on a map whose keys are not strings", "{{ m.foo }} / {{ m.size }} on a map[int]string panicked in reflect.Value.MapIndex"),
 ]
 KNOWN = [
